@@ -44,6 +44,18 @@ def sequence_checks(hx, cls, m, enc, k, forms, tag):
         hx.prove(again == keep, "%s: encode(m) is unaffected by an encode of an unrelated %d-bit input in between" % (tag, n))
         if st == "ok" and n == k:
             hx.prove(cls.deinterleave_data_bits(r, False) == other if tag != "32/11" else True, "%s: the unrelated %d-bit message also round-trips right after encode(m)" % (tag, n))
+    # the SAME buffer object, modified in place after it was encoded, is encoded again: the result depends on its current value only
+    delta = hx.ba(k, "delta")
+    m ^= delta
+    enc2 = cls.encode(m)
+    hx.prove(enc2 == cls.encode(m.copy()), "%s: encoding a buffer that was modified in place since an earlier encode gives the encoding of its current value" % tag)
+    hx.prove(cls.deinterleave_data_bits(enc2, False) == m, "%s: ... and the extractor returns the current value" % tag)
+    if tag == "68/28":
+        hx.prove(EQ(cls.deinterleave_crc8_bits(enc2).tolist(), int2ba(CRC8.calculate(m.copy()), length=8, endian="little").tolist()),
+                 "68/28: CRC-8 read back after re-encoding the modified buffer == CRC8.calculate(current message)")
+    if tag == "128/72":
+        hx.prove(ba2int(cls.deinterleave_cs5_bits(enc2)) == FiveBitChecksum.calculate(m.tobytes()),
+                 "128/72: checksum read back after re-encoding the modified buffer == FiveBitChecksum.calculate(current message)")
 
 
 def h_128_72(hx):
